@@ -76,8 +76,16 @@ SelOf(e, run, pc) ==
             THEN {DocId(run.res.calls[i]) : i \in DOMAIN run.res.calls}
        ELSE IF e.op = "CreateByQuery"
             THEN AuditDocIds(AuditColl(run.audit, e.name))
-       ELSE LET x == AuditColl(run.audit, e.c) IN
-            {id \in DOMAIN docs : id \notin AuditDocIds(x) \/ AuditDoc(x, id) # docs[id]}
+       ELSE LET x == AuditColl(run.audit, e.c)
+                \* the documents the call visibly changed ...
+                D == {id \in DOMAIN docs : id \notin AuditDocIds(x) \/ AuditDoc(x, id) # docs[id]}
+                \* ... and those it may have selected without a visible effect (an update map whose
+                \* values they already hold): any admissible selection between the two explains the call
+                I == IF e.op = "Update"
+                     THEN {id \in Matching(docs, q.crit) \ D : ApplyUpd(docs[id], e.upd) = docs[id]}
+                     ELSE {}
+                good == {s \in {D \cup X : X \in SUBSET I} : ValidSelection(s, docs, q)}
+            IN IF I = {} \/ good = {} THEN D ELSE CHOOSE s \in good : TRUE
 
 HintOf(e, run, pc, pf) ==
     [ids |-> IF HasField(run.res, "ids") THEN run.res.ids
